@@ -59,7 +59,7 @@ def run(tier, seed, replay):
             specs.append(sp)
             hists.append([{"op": "get", "name": n_} for n_ in cfg["services"]] + [{"op": "param", "name": p_} for p_ in cfg["parameters"]])
     # patterns whose literal text contains quotes, brackets and escapes around the references (the text is not Go source: nothing in it is special)
-    QP = ["say \"%p%\"", "{\"rate\": \"%n%%%\"}", "\"%p%", "%p%\"", "'%n%'", "`%p%`", "(%n%", "a \" b \" c \" %p% %%", "\\\"%p%", "%p%\\", "\"\"\"%n%", "x\ty %p%"]
+    QP = ["say \"%p%\"", "{\"rate\": \"%n%%%\"}", "\"%p%", "%p%\"", "'%n%'", "`%p%`", "(%n%", "a \" b \" c \" %p% %%", "\\\"%p%", "%p%\\", "\"\"\"%n%", "x\ty %p%", "%%p%%", "%%n%%", "%%p%% %p%", "a%%n%%b"]
     for j in range(0, len(QP), 4):
         ch_ = QP[j:j + 4]
         cfg = {"parameters": {"p": "Bob", "n": 5}, "services": {"s": {"constructor": "NewA", "arguments": ch_, "fields": {"Name": ch_[0], "Port": ch_[1]}, "calls": [["SetX", ch_[2:]], ["WithY", [ch_[3]], True]], "tags": ["t"]}},
